@@ -3,10 +3,11 @@
 case = {"doc": <gen/docs.py document; paragraphs may repeat a field name, also in other case>,
         "ops": [["first"|"last", pi, key] | ["before"|"after", pi, key, refkey] |
                 ["sort", pi, keyname] | ["set", pi, key, value] | ["setnew", pi, name, value] |
-                ["del", pi, key] | ["ordermissing", pi, "first"|"last"|"before"|"after", name] |
+                ["del", pi, key(, "pop")] | ["ordermissing", pi, "first"|"last"|"before"|"after", name] |
                 ["append", paraspec] | ["insert", idx, paraspec]]}
 key      = [name index, occurrence index or null, case mode]   (indices modulo what is live;
-            occurrence null = the un-indexed key, i.e. all occurrences)
+            occurrence null = the un-indexed key, i.e. all occurrences; case mode 3..5 = the key is
+            handed over as the occurrence's field-name token where it denotes one occurrence)
 paraspec = {"fields": [[name, value], ...], "how": "assign" | "from_dict"}
 """
 from hypothesis import strategies as st
@@ -20,7 +21,8 @@ LEVEL = "exploration"
 RULE = ("cases are (document built from structure, paragraphs with unique or duplicated field "
         "names incl. case variants, free comments, with/without final newline, unterminated "
         "trailing comment) x 1..6 structural operations (order_first/last/before/after with plain "
-        "and (name, i) keys, sort_fields with 5 key functions, indexed/un-indexed set and delete, "
+        "(name, i) and name-token keys, sort_fields with 5 key functions, indexed/un-indexed set and "
+        "delete (del and pop), enumerated edit-then-move pairs, "
         "insert/append of new paragraphs); dump, keys(), every (name, i) lookup and live reads are "
         "compared with the list model after EVERY operation, a fresh parse after paragraph "
         "operations and at the end. Non-trivial = a duplicated field moved, or a paragraph "
@@ -46,6 +48,12 @@ def resolve_key(run, p, key):
     n = len(run.occ(p, name))
     occ = None if key[1] is None else key[1] % n
     return (spell(name, key[2] % 3), occ)
+
+
+def roles(*keys):
+    """case mode 3..5 = hand the library the occurrence's field-name token instead of the
+    name / (name, i) (same spelling rules as 0..2 where the token form is not applicable)."""
+    return tuple(r for r, k in zip(("key", "ref"), keys) if k is not None and k[2] >= 3)
 
 
 def check(case):
@@ -79,7 +87,9 @@ def check(case):
             key = resolve_key(run, p, op[2])
             ref = resolve_key(run, p, op[3]) if kind in ("before", "after") else None
             dup = len(run.occ(p, key[0])) > 1
+            run.token_roles = roles(op[2], op[3] if ref is not None else None)
             run.do_order(pi, kind, key, ref, what)
+            run.token_roles = ()
             run.labels.add("order-" + kind + ("-indexed" if key[1] is not None else ""))
             if dup:
                 run.labels.add("order-on-duplicated-field")
@@ -96,7 +106,9 @@ def check(case):
             if run.occ(p, "Nope") or not p or op[2] not in ("before", "after"):
                 continue
             key = resolve_key(run, p, op[3])
+            run.token_roles = roles(op[3])
             run.do_order(pi, op[2], key, ("Nope", None), what)
+            run.token_roles = ()
         elif kind == "sort":
             run.do_sort(pi, op[2] if op[2] in SORT_KEYS else "default")
             run.labels.add("sort")
@@ -108,7 +120,9 @@ def check(case):
             key = resolve_key(run, p, op[2])
             if len(run.occ(p, key[0])) > 1:
                 run.labels.add("set-on-duplicated-field" + ("-indexed" if key[1] is not None else ""))
+            run.token_roles = roles(op[2])
             run.do_set(pi, key, op[3], what)
+            run.token_roles = ()
         elif kind == "setnew":
             if run.occ(p, op[2]):
                 continue
@@ -124,7 +138,9 @@ def check(case):
                 continue
             if len(run.occ(p, key[0])) > 1:
                 run.labels.add("del-on-duplicated-field" + ("-indexed" if key[1] is not None else ""))
-            run.do_del(pi, key, what)
+            run.token_roles = roles(op[2])
+            run.do_del(pi, key, what, op[3] if len(op) > 3 else None)
+            run.token_roles = ()
         else:
             continue
         run.compare(what)
@@ -134,7 +150,7 @@ def check(case):
     return (nontrivial, sorted(run.labels))
 
 
-key = st.tuples(st.integers(0, 4), st.one_of(st.none(), st.integers(0, 3)), st.integers(0, 2))
+key = st.tuples(st.integers(0, 4), st.one_of(st.none(), st.integers(0, 3)), st.integers(0, 5))
 value = st.sampled_from(docs.VALUES)
 paraspec = st.fixed_dictionaries({
     "fields": st.lists(st.tuples(st.sampled_from(["Package", "X", "Alpha", "zed"]), value),
@@ -147,7 +163,7 @@ op = st.one_of(
     st.tuples(st.just("sort"), pidx, st.sampled_from(sorted(SORT_KEYS))),
     st.tuples(st.just("set"), pidx, key, value),
     st.tuples(st.just("setnew"), pidx, st.sampled_from(docs.NEW_NAMES), value),
-    st.tuples(st.just("del"), pidx, key),
+    st.tuples(st.just("del"), pidx, key, st.sampled_from([None, None, "pop"])),
     st.tuples(st.just("ordermissing"), pidx, st.sampled_from(["first", "last", "before", "after"]),
               st.just("Nope")),
     st.tuples(st.just("refmissing"), pidx, st.sampled_from(["before", "after"]), key),
@@ -195,6 +211,36 @@ def small_cases():
                     yield {"doc": d, "ops": [["insert", i, spec], ["append", spec]]}
 
 
+def edit_then_move():
+    """Pairs of operations on small documents (all endings): an edit (set / delete - also through
+    pop() and through the name-token key form - / add) followed by something that places text
+    behind the last field or addresses the edited name again (move, sort, add, append), and a
+    move followed by an add.  Whatever the first operation cached or left behind shows up in the
+    second."""
+    shapes = [["Alpha", "alpha", "Beta"], ["Beta", "Alpha", "ALPHA"], ["Alpha", "Beta", "Gamma"]]
+    tails = [("", True), ("", False), ("# trailing\n", False)]
+    spec = {"fields": [["Package", "n"]], "how": "assign"}
+    for names in shapes:
+        for tail, fin in tails:
+            p = [{"n": n, "c": "# c%d\n" % i if i != 1 else "", "b": " v%d\n" % i if i != 2 else " v\n c\n"}
+                 for i, n in enumerate(names)]
+            d = {"lead": "", "paras": [p], "seps": [], "tail": tail, "final_nl": fin}
+            keys = [[ni, occ, m] for ni in range(3) for occ in (None, 0, 1) for m in (0, 3)]
+            firsts = []
+            for k in keys:
+                firsts += [["set", 0, k, "n"], ["del", 0, k], ["del", 0, k, "pop"]]
+                firsts += [["last", 0, k], ["first", 0, k]]
+                firsts += [["after", 0, k, [2, None, 0]], ["after", 0, k, [2, 1, 3]], ["before", 0, k, [0, 0, 3]]]
+            firsts += [["setnew", 0, "New", "n"], ["sort", 0, "default"]]
+            seconds = [["last", 0, [0, 0, 0]], ["last", 0, [0, None, 0]], ["first", 0, [2, None, 0]],
+                       ["after", 0, [0, 0, 0], [2, None, 0]], ["sort", 0, "default"], ["sort", 0, "length"],
+                       ["setnew", 0, "New", "n"], ["setnew", 0, "Zed", "n\n c"], ["set", 0, [0, 0, 0], "m"],
+                       ["del", 0, [0, 0, 3]], ["append", spec]]
+            for o1 in firsts:
+                for o2 in seconds:
+                    yield {"doc": d, "ops": [o1, o2]}
+
+
 def insert_sequences():
     """Every sequence of three insert/append calls (indices 0..3 / append) on documents of 1..2
     paragraphs, with and without a free comment between them."""
@@ -235,10 +281,12 @@ def sources(tier):
         return [Enum("small-docs", small_cases, "5 name shapes x 4 endings x 1-2 paragraphs x every single ordering op/key"),
                 Enum("insert-sequences", insert_sequences, "all 125 sequences of three insert/append calls x 4 documents"),
                 Enum("order-then-sort", order_then_sort, "every ordering op on a 4-field paragraph x 5 sort keys (x a second sort)"),
+                Enum("edit-then-move", edit_then_move, "3 name shapes x 3 endings x (edit or move with every key form) x 11 follow-up operations"),
                 Hyp("dup-doc-histories", case_dups, 350, shards=8),
                 Hyp("uniq-doc-histories", case_uniq, 300, shards=4)]
     return [Enum("small-docs", small_cases, "5 name shapes x 4 endings x 1-2 paragraphs x every single ordering op/key"),
             Enum("insert-sequences", insert_sequences, "all 125 sequences of three insert/append calls x 4 documents"),
             Enum("order-then-sort", order_then_sort, "every ordering op on a 4-field paragraph x 5 sort keys (x a second sort)"),
+            Enum("edit-then-move", edit_then_move, "3 name shapes x 3 endings x (edit or move with every key form) x 11 follow-up operations"),
             Hyp("dup-doc-histories", case_dups, 12000, shards=12),
             Hyp("uniq-doc-histories", case_uniq, 8000, shards=4)]
